@@ -1,6 +1,7 @@
 package main
 
 import (
+	"go/types"
 	"fmt"
 	"go/token"
 	"sort"
@@ -227,6 +228,42 @@ func goroutineRoots(c *Ctx, fns []*ssa.Function) []groot {
 				}
 			}
 		})
+	}
+	sort.Slice(out, func(i, j int) bool { return out[i].key() < out[j].key() })
+	return out
+}
+
+// stdlibDrivenRoots: product methods that the standard library calls on goroutines of its own, outside any recover
+// frame of the proxy: the net.Conn / net.Listener implementations handed to net/http (the background reader, the
+// post-recover close in (*conn).serve, the accept loop) and the ConnContext hook (runs in http.Server.Serve's loop).
+func stdlibDrivenRoots(c *Ctx) []groot {
+	var out []groot
+	ifaces := []*types.Interface{}
+	for _, nm := range []string{"Conn", "Listener"} {
+		if n := c.Named("net", nm); n != nil {
+			if it, ok := n.Underlying().(*types.Interface); ok {
+				ifaces = append(ifaces, it)
+			}
+		}
+	}
+	for _, fn := range c.FuncsIn(appPkgs...) {
+		if fn.Signature.Recv() == nil || fn.Synthetic != "" {
+			continue
+		}
+		rt := fn.Signature.Recv().Type()
+		for _, it := range ifaces {
+			if !types.Implements(rt, it) && !types.Implements(types.NewPointer(deref(rt)), it) {
+				continue
+			}
+			for k := 0; k < it.NumMethods(); k++ {
+				if it.Method(k).Name() == fn.Name() {
+					out = append(out, groot{fn, nil, fn, "stdlib"})
+				}
+			}
+		}
+	}
+	if f := c.Func("pkg/proxyserver", "updateConnContext"); f != nil {
+		out = append(out, groot{f, nil, f, "stdlib"})
 	}
 	sort.Slice(out, func(i, j int) bool { return out[i].key() < out[j].key() })
 	return out
@@ -579,7 +616,7 @@ func panicMessage(c *Ctx, p *ssa.Panic) string {
 // R4: explicit panic sites on goroutines without recover frame.
 func c10r4(r *R) {
 	c := r.C
-	roots := goroutineRoots(c, proxyFuncs(c))
+	roots := append(goroutineRoots(c, proxyFuncs(c)), stdlibDrivenRoots(c)...)
 	seen := map[string]bool{}
 	n := 0
 	for _, g := range roots {
@@ -737,6 +774,27 @@ func c10r9(r *R) {
 					}
 				}
 				o.Fail("single-value type assertion %s.(%s) in %s runs on a goroutine without a recover frame: if the dynamic type differs the process terminates", c.Expr(x.X), typeName(x.AssertedType), funcName(fn))
+			case *ssa.Call:
+				b, ok := x.Call.Value.(*ssa.Builtin)
+				if !ok || b.Name() != "close" {
+					return
+				}
+				n++
+				key := funcName(fn) + "|close " + c.Expr(x.Call.Args[0])
+				o := r.Ob("C10.R9", "implicit:"+key).AtI(i)
+				if why, ok := reviewedImplicit[key]; ok {
+					o.OK("reviewed: %s", why)
+					return
+				}
+				if closeIfUnclosed(c, x) {
+					o.OK("close-if-unclosed idiom: non-nil channel, default edge of a non-blocking receive from the same channel (callers hold the owner's mutex)")
+					return
+				}
+				if onceOnly(c, fn, i) {
+					o.OK("runs at most once: inside a sync.Once.Do function")
+					return
+				}
+				o.Fail("close(%s) in %s runs on a goroutine without a recover frame and is not shown to run at most once per channel: closing a closed (or nil) channel terminates the process", c.Expr(x.Call.Args[0]), funcName(fn))
 			case *ssa.BinOp:
 				if (x.Op.String() == "/" || x.Op.String() == "%") && isIntegerT(x.Type()) {
 					if _, isC := constInt(x.Y); isC {
@@ -761,4 +819,42 @@ func c10r9(r *R) {
 		})
 	}
 	r.Ob("C10.R9", "instances").OK("%d single-value type assertions / variable divisions on unprotected goroutines", n)
+}
+
+// onceOnly: fn is a function literal passed to (*sync.Once).Do.
+func onceOnly(c *Ctx, fn *ssa.Function, i ssa.Instruction) bool {
+	if fn.Parent() == nil {
+		return false
+	}
+	ok := false
+	eachInstr(fn.Parent(), func(j ssa.Instruction) {
+		if cc := callOf(j); cc != nil && calleeName(cc) == "(*sync.Once).Do" && closureTarget(cc.Args[1]) == fn {
+			ok = true
+		}
+	})
+	return ok
+}
+
+// closeIfUnclosed: `if ch != nil { select { case <-ch: default: close(ch) } }`.
+func closeIfUnclosed(c *Ctx, call *ssa.Call) bool {
+	ch := c.Expr(call.Call.Args[0])
+	nonNil, unclosed := false, false
+	for _, g := range guardsOf(call.Block()) {
+		bo, ok := g.Cond.(*ssa.BinOp)
+		if !ok {
+			continue
+		}
+		e := c.Expr(bo)
+		if (e == "(nil == "+ch+")" && !g.Pol) || (e == "(nil != "+ch+")" && g.Pol) {
+			nonNil = true
+		}
+		if ex, ok := bo.X.(*ssa.Extract); ok && !g.Pol && bo.Op == token.EQL {
+			if sel, ok := ex.Tuple.(*ssa.Select); ok && !sel.Blocking && len(sel.States) == 1 && sel.States[0].Dir == types.RecvOnly && c.Expr(sel.States[0].Chan) == ch {
+				if k, isC := constInt(bo.Y); isC && k == 0 {
+					unclosed = true
+				}
+			}
+		}
+	}
+	return nonNil && unclosed
 }
